@@ -19,6 +19,7 @@ import (
 	"k8s.io/utils/ptr"
 
 	kaiv1alpha1 "github.com/NVIDIA/KAI-scheduler/pkg/apis/kai/v1alpha1"
+	bindv1alpha2 "github.com/NVIDIA/KAI-scheduler/pkg/apis/scheduling/v1alpha2"
 	schedv2 "github.com/NVIDIA/KAI-scheduler/pkg/apis/scheduling/v2"
 	schedv2alpha2 "github.com/NVIDIA/KAI-scheduler/pkg/apis/scheduling/v2alpha2"
 )
@@ -104,10 +105,10 @@ type PodSpec struct {
 	CPUm         int64             `json:"cpu_m"`
 	MemMi        int64             `json:"mem_mi"`
 	GPUs         int64             `json:"gpus,omitempty"`
-	Fraction     string            `json:"fraction,omitempty"`     // gpu-fraction annotation value
-	GPUMemMi     int64             `json:"gpu_mem_mi,omitempty"`   // gpu-memory annotation
-	NumDevices   int64             `json:"num_devices,omitempty"`  // gpu-fraction-num-devices
-	MIG          map[string]int64  `json:"mig,omitempty"`          // extended MIG resources requested
+	Fraction     string            `json:"fraction,omitempty"`    // gpu-fraction annotation value
+	GPUMemMi     int64             `json:"gpu_mem_mi,omitempty"`  // gpu-memory annotation
+	NumDevices   int64             `json:"num_devices,omitempty"` // gpu-fraction-num-devices
+	MIG          map[string]int64  `json:"mig,omitempty"`         // extended MIG resources requested
 	State        string            `json:"state"`
 	Node         string            `json:"node,omitempty"`
 	GPUGroups    []string          `json:"gpu_groups,omitempty"`
@@ -118,6 +119,7 @@ type PodSpec struct {
 	Labels       map[string]string `json:"labels,omitempty"`
 	ExtraAnnot   map[string]string `json:"extra_annot,omitempty"`
 	OtherSched   bool              `json:"other_sched,omitempty"` // pod of another scheduler (no pod group)
+	NoBindRequest bool             `json:"no_bind_request,omitempty"` // placed pod whose (succeeded) BindRequest no longer exists
 	AgeSec       int64             `json:"age_s,omitempty"`       // creation = Epoch - AgeSec
 }
 
@@ -454,6 +456,32 @@ func BuildReservationPod(node, group string, index int) *corev1.Pod {
 	}
 }
 
+// BuildSucceededBindRequest: what the scheduler+binder leave behind for every pod they placed
+// (the request is owned by the pod and lives as long as the pod).
+func BuildSucceededBindRequest(p PodSpec) *bindv1alpha2.BindRequest {
+	rtype := "Regular"
+	shared := p.Fraction != "" || p.GPUMemMi > 0
+	if shared {
+		rtype = "Fraction"
+	}
+	br := &bindv1alpha2.BindRequest{
+		TypeMeta: metav1.TypeMeta{APIVersion: "scheduling.run.ai/v1alpha2", Kind: "BindRequest"},
+		ObjectMeta: metav1.ObjectMeta{
+			Name: p.Name, Namespace: NS, UID: types.UID("br-" + p.Name),
+			Labels: map[string]string{"selected-node": p.Node},
+			OwnerReferences: []metav1.OwnerReference{{APIVersion: "v1", Kind: "Pod", Name: p.Name, UID: types.UID("pod-" + p.Name)}},
+		},
+		Spec: bindv1alpha2.BindRequestSpec{
+			PodName: p.Name, SelectedNode: p.Node, ReceivedResourceType: rtype,
+		},
+		Status: bindv1alpha2.BindRequestStatus{Phase: bindv1alpha2.BindRequestPhaseSucceeded},
+	}
+	if shared {
+		br.Spec.SelectedGPUGroups = append([]string(nil), p.GPUGroups...)
+	}
+	return br
+}
+
 func BuildTopology(t TopologySpec) *kaiv1alpha1.Topology {
 	obj := &kaiv1alpha1.Topology{
 		TypeMeta:   metav1.TypeMeta{APIVersion: "kai.scheduler/v1alpha1", Kind: "Topology"},
@@ -491,6 +519,9 @@ func (w *World) Objects() []runtime.Object {
 		}
 		for _, p := range wl.Pods {
 			out = append(out, BuildPod(wl, p))
+			if p.Node != "" && !p.OtherSched && !p.NoBindRequest {
+				out = append(out, BuildSucceededBindRequest(p))
+			}
 			if p.Node != "" && p.State != "succeeded" && p.State != "failed" {
 				for _, g := range p.GPUGroups {
 					groups[ng{p.Node, g}] = true
